@@ -197,9 +197,14 @@ func c15Scenario(w *vfWorld, r *vfkit.R, idx int, callsOn bool) {
 			// the establishment timeout is read when the invitation is handled: most calls get a long one,
 			// some a short one which is then left to expire
 			short := callsOn && rng.Intn(4) == 0
+			// half of the short ones are reported as ringing by a device of the other user before they expire
+			ring := short && rng.Intn(2) == 0
 			globals.callEstablishmentTimeout = 3000
 			if short {
 				globals.callEstablishmentTimeout = 4
+				if ring {
+					globals.callEstablishmentTimeout = 25
+				}
 			}
 			f := s.c.pub(s.name, content, false, map[string]any{"webrtc": "started", "mime": "application/x-tinode-webrtc"})
 			e.vfQuiesce()
@@ -236,6 +241,17 @@ func c15Scenario(w *vfWorld, r *vfkit.R, idx int, callsOn bool) {
 				}
 				if short {
 					cnt2 := cnt // the timer may fire before we look: count frames from before the invitation
+					if ring {
+						for _, x := range sc.ss {
+							if x.u != s.u && !x.c.isClosed() {
+								x.c.send("note", map[string]any{"topic": x.name, "what": "call", "event": "ringing", "seq": seq})
+								sc.logf("%s sends call ringing seq=%d (right), nobody answers", x.lbl, seq)
+								r.Hit("ringing_then_timeout")
+								break
+							}
+						}
+						time.Sleep(21 * 10 * time.Millisecond)
+					}
 					time.Sleep(4*10*time.Millisecond + 80*time.Millisecond)
 					e.vfQuiesce()
 					sc.logf("establishment timeout elapses")
